@@ -11,7 +11,7 @@ cmd="$1"
 if [ -n "$FAKE_PER_HOST" ]; then FAKE_REMOTE_ROOT="$FAKE_REMOTE_ROOT-$host"; mkdir -p "$FAKE_REMOTE_ROOT"; fi
 cmd="${cmd//\/var\/tmp/$FAKE_REMOTE_ROOT}"
 printf 'ssh\t%s\t%s\n' "$host" "$(printf '%s' "$1" | tr '\n' ' ')" >> "$FAKE_LOG"
-if [ -n "$FAKE_RELAY_ORDER$FAKE_CUT$FAKE_KEY_LOG$FAKE_PAUSE" ] && [[ "$cmd" == *--doer* ]]; then exec python3 "$(dirname "$0")/relay.py" "$cmd"; fi
+if [ -n "$FAKE_RELAY_ORDER$FAKE_CUT$FAKE_KEY_LOG$FAKE_PAUSE$FAKE_BAD_PORT" ] && [[ "$cmd" == *--doer* ]]; then exec python3 "$(dirname "$0")/relay.py" "$cmd"; fi
 exec /bin/bash -c "$cmd"
 '''
 RELAY = r'''#!/usr/bin/env python3
@@ -135,6 +135,10 @@ for item in order:
     line = next_line(item[1], item[0])
     if line is None: break
     if item[0] == 'C': freeze_once()
+    if item[0] == 'C' and os.environ.get('FAKE_BAD_PORT'):
+        # $FAKE_BAD_PORT: the port the doer announces cannot be reached from the boss (a firewall, a wrong --remote-port, an ssh alias that
+        # leads elsewhere): the announced number is replaced by one nobody listens on; the doer itself goes on waiting
+        line = re.sub(rb'(on port )\d+', rb'\g<1>1', line)
     if CUT and item[0] == 'C':
         m = re.match(rb'(Waiting for incoming network connection on port )(\d+)', line)
         if m:
